@@ -763,10 +763,15 @@ func (s *scenario) analyse(p *pair) analysis {
 					if cd.deactivated() {
 						what = "deactivated-controller"
 					}
-					a.violKey = "C09/" + what + "/prevs-controller-old-version"
-					if newer {
-						a.violKey = "C09/" + what + "/prevs-controller-old-and-new-version"
+					if !newer {
+						// prevs name ONLY a version of the controller that still listed the key: the update is causally concurrent with the
+						// controller's key removal / deactivation, and "a controller of the version it succeeds" does not say which version of
+						// the controller's document counts (coordinator decision): observed, never alarmed
+						a.cls, a.violKey, a.unspecOn = unspecified, "", "controller-concurrent-stale-version"
+						a.reason = "signer was listed by the controller version the prevs name; the controller removed the key / was deactivated in a version the prevs do not name"
+						return a
 					}
+					a.violKey = "C09/" + what + "/prevs-controller-old-and-new-version"
 					return a
 				}
 			}
@@ -1241,7 +1246,8 @@ func TestCheck(t *testing.T) {
 		"(and, for updates, the store held at least one accepted version); distinct by (kind, roles of the prevs in order, class, outcome, rejecting layer).")
 	r.Require(r.Pick(100, 1000), r.Pick(40, 150))
 	r.Assume("bbolt stores; one node; transactions arrive one at a time (arrival-order questions belong to C10)")
-	r.Assume("a controller's document is taken as currently accepted when judging whether its key may update a controlled DID (DESIGN C09)")
+	r.Assume("a controller's document is taken as currently accepted when judging whether its key may update a controlled DID (DESIGN C09); " +
+		"an update whose prevs name only a controller version that still listed the key (causally concurrent with the removal/deactivation) is unspecified: controller-concurrent-stale-version")
 	r.Assume("the NATS REPROCESS stream of the ambassador is not part of the path (Start() subscribes on the network first; the harness' event manager then refuses the connection)")
 
 	js := jobs(r.Thorough(), r.Rand("jobs"))
